@@ -552,6 +552,11 @@ func (d *randomDriver) step() {
 			for _, l := range c.los {
 				delete(l.files, lockKey(f.fh, o.key))
 			}
+			// The open-owner's last request is a CLOSE now; if it
+			// still has files open it must survive a long silence.
+			if len(o.files) > 0 && d.pick(4) == 0 {
+				d.idle()
+			}
 		}
 	case k < 62:
 		// LOCK
@@ -714,7 +719,54 @@ func (d *randomDriver) step() {
 			e.do(*cands[d.pick(len(cands))])
 		}
 	default:
+		if d.pick(3) == 0 {
+			d.idle()
+			return
+		}
 		e.tick([]int{1, 1, 2, 2, 3, 4, 6, 9, 11}[d.pick(9)])
+	}
+}
+
+// idle lets more than the lease time pass in steps of about half a lease
+// during which no open-owner sends a sequenced request, while (most of)
+// the clients keep their lease alive with RENEW or I/O: open-owners
+// without open files are forgotten meanwhile, those with open files and
+// everything that hangs on them must stay.
+func (d *randomDriver) idle() {
+	e := d.e
+	if e.openPending() > 0 {
+		return
+	}
+	alive := []*client{}
+	for _, c := range d.clients {
+		if c.cid != 0 && d.pick(4) != 0 {
+			alive = append(alive, c)
+		}
+	}
+	for i := 0; i < 3+d.pick(2) && !e.dead; i++ {
+		e.tick(4 + d.pick(3))
+		for _, c := range alive {
+			var r *Req
+			if d.pick(2) == 0 {
+				// I/O with one of the client's open or lock state ids
+				for _, key := range []string{"o1", "o2", "o3"} {
+					if o, ok := c.oos[key]; ok && o.confirmed && r == nil {
+						if f := d.anyOpen(o); f != nil && f.share&1 != 0 {
+							x := rIO("READ", f.fh, "reg", f.t, f.q, false)
+							r = &x
+						}
+					}
+				}
+			}
+			if r == nil {
+				x := rRenew(c.cid)
+				r = &x
+			}
+			if rep, _ := e.do(*r); rep.St == "STALE_CLIENTID" {
+				c.cid, c.confirmed = 0, false
+				c.reset()
+			}
+		}
 	}
 }
 
